@@ -667,7 +667,7 @@ type sessA struct{ *sess }
 func (s *sessA) AuthMechanisms() []string {
 	s.b.mu.Lock()
 	defer s.b.mu.Unlock()
-	return append([]string(nil), s.b.Mechs...)
+	return append([]string{}, s.b.Mechs...) // (never nil: an empty list stays an empty list)
 }
 
 func (s *sessA) Auth(mech string) (sasl.Server, error) {
